@@ -495,7 +495,8 @@ def default_ignores_kept(ctx, rep, R):
 
 def r5_package_restricts(ctx, rep, R='C14.R5'):
     rep.rule(R, '--package restricts the walk: test_dirs yields options.test_path only when no '
-             '--package was given; otherwise only the directories of the named packages')
+             '--package was given; otherwise the directories of the named packages -- all of them: the '
+             'loops over options.package and over each package\'s __path__ are only left when exhausted')
     fi = ctx.model.func('find.test_dirs')
     ys = [n for n in ast.walk(fi.node) if isinstance(n, (ast.Yield, ast.YieldFrom))]
     ok = False
@@ -510,6 +511,25 @@ def r5_package_restricts(ctx, rep, R='C14.R5'):
     rep.check(ok and ok2, R, 'test_dirs: test_path iff not options.package',
               'the whole test path is walked although --package was given (or never)',
               key='package', func=fi.qualname, where=ctx.where(fi, fi.node))
+    # ... and every directory of every named package is considered: the loops over options.package
+    # and over <package>.__path__ are left only when they are exhausted
+    g = ctx.cfg(fi)
+    heads = [n for n in g.nodes if n.kind == 'for' and (
+        norm(n.ast).endswith('.__path__') or dotted(n.ast) == 'options.package')]
+    for h in heads:
+        inside = set(g.loop_nodes(h.id)) | {h.id}
+        leaks = [(s_, d_) for s_ in inside for d_, k_ in g.succ[s_]
+                 if d_ not in inside and k_ != 'exc' and not (s_ == h.id and k_ == 'false')]
+        rep.check(not leaks, R, 'test_dirs: the loop over %s visits every element' % norm(h.ast),
+                  'the loop over %s can be left before it is exhausted (%s): of a package spread over '
+                  'several directories (namespace package, extended __path__) / of several --package '
+                  'options only the first is searched' % (
+                      norm(h.ast), norm(g.node(leaks[0][0]).ast)[:50] if leaks else ''),
+                  key='package:all:' + norm(h.ast), func=fi.qualname,
+                  where=ctx.where(fi, g.node(leaks[0][0]).ast if leaks and g.node(leaks[0][0]).ast is not None else fi.node))
+    rep.check(len(heads) >= 2, R, 'test_dirs: loops over options.package and over <package>.__path__ found',
+              'test_dirs does not iterate options.package and the __path__ of each package',
+              key='package:loops', func=fi.qualname, where=ctx.where(fi, fi.node))
 
 
 def r6_longest_prefix_first(ctx, rep, R='C14.R6'):
